@@ -136,9 +136,9 @@ def match_known(res, prop, known):
     for k in known:
         if k.get("status", "open") != "open":
             continue
-        if k["property"] != prop or k["key"] != res["key"]:
+        if k["property"] != prop or k.get("key") != res["key"]:
             continue
-        if k["match"] in res.get("sig", ""):
+        if k.get("sig") is not None and k["sig"] == res.get("sig", ""):
             return k
     return None
 
